@@ -7,8 +7,9 @@ import time
 
 VERIF = os.path.dirname(os.path.dirname(os.path.abspath(__file__)))
 REPO = os.environ.get("VERIF_REPO", "/repo")
-EVID = os.path.join(VERIF, "evidence")
-REPLAY = os.path.join(VERIF, "replay")
+_SCR = os.environ.get("VERIF_SCRATCH")      # seeded-change runs: keep evidence / replay / build of the real tree untouched
+EVID = os.path.join(_SCR, "evidence") if _SCR else os.path.join(VERIF, "evidence")
+REPLAY = os.path.join(_SCR, "replay") if _SCR else os.path.join(VERIF, "replay")
 FINDINGS = os.path.join(VERIF, "known_findings.json")
 
 
